@@ -174,8 +174,8 @@ impl Tracker {
                 self.status = Status::Ready;
                 Some(previous)
             }
-            ScheduleReason::Ready => {
-                debug_assert!(self.status == Status::Paused(PauseReason::Busy));
+            // a late or duplicate Ready (nobody is waiting for the link to drain) is ignored
+            ScheduleReason::Ready if previous == PauseReason::Busy => {
                 self.status = Status::Ready;
                 Some(previous)
             }
